@@ -502,7 +502,7 @@ def plan(prop, tier, seed, budget):
             level='exploration',
             builds=[('c06', 'asan'), ('c06t', 'tsan'), ('c06t', 'tsanrel')],
             optional_builds=[('c06', 'asan')],
-            jobs=([g5a('two-all', 2000000, 16), g5a('three', 3000, 12), g2c06(100000), g6(5000, 8)] if q else
+            jobs=([g5a('two-all', 2000000, 16), g5a('three', 2000, 12), g2c06(100000), g6(5000, 8)] if q else
                   [g5a('two', 2000000, 16), g5a('two-all', 2000000, 16), g5a('three', 200000, 16), g5a('four', 60000, 16), g2c06(1500000), g6(400000, 8)]),
             rule='case = (scenario, schedule): one allocation, 2-4 threads each owning private shared/weak pointer objects (0-2 initial owners, '
                  '0-2 initial weak references) and running a script of 1-4 operations from {share, reset, weak_from, lock (then touch the '
